@@ -93,6 +93,9 @@ func c06Ops() []c06Op {
 			c06Op{"Add" + h.name + "Format(comma name)", func(m *mail.Msg) error { return h.addFmt(m, "Roe, Jane", "jane@x.example") }, appendTo(h.name, na{"Roe, Jane", "jane@x.example"})},
 			c06Op{h.name + "IgnoreInvalid(valid, invalid, own)", func(m *mail.Msg) error { h.ignore(m, c06A2.str(), c06Bad, own.str()); return nil }, resync},
 			c06Op{h.name + "FromString(two)", func(m *mail.Msg) error { return h.fromStr(m, "a0@x.example, <a2@x.example>") }, set(h.name, c06A0, na{"", "a2@x.example"})},
+			// setting an empty list clears the header (documented: "replaces any existing addresses")
+			c06Op{h.name + "() empty", func(m *mail.Msg) error { return h.set(m) }, set(h.name)},
+			c06Op{h.name + "FromString(blank)", func(m *mail.Msg) error { return h.fromStr(m, " , ") }, set(h.name)},
 		)
 	}
 	return ops
